@@ -292,13 +292,15 @@ def _evolve(V):
         functions=[f"{M.CLS['Structure']}.concatenate", f"{M.CLS['Structure']}.__or__"])
 def _concat(V):
     I, st = V.I, V.st
-    a = source(V, "Structure", "a")
-    b = source(V, "Structure", "b")
+    # the classmethod is inherited: Molecule.concatenate / Molecule(...) | ... go through Molecule.__init__
+    kind = V.choose(["Structure", "Molecule"], "class")
+    a = source(V, kind, "a")
+    b = source(V, kind, "b")
     via = V.choose(["concatenate", "or"], "route")
     fa, fb = footprint(a), footprint(b)
     V.witness(lambda ev: {"op": "concatenate", "via": via, "signature": "concatenate"})
     V.cover()
-    cls = V.cls(M.CLS["Structure"])
+    cls = V.cls(M.CLS[kind])
     try:
         if via == "concatenate":
             I.target = f"{M.CLS['Structure']}.concatenate"
